@@ -17,6 +17,8 @@ a_ == <<97>>
 ab_ == <<97, 98>>
 \* U+202F NARROW NO-BREAK SPACE: not printable for Python, above 0xFF (a typographic space in real descriptions and values)
 nnbsp_ == <<8239>>
+\* U+E0067 TAG LATIN SMALL LETTER G (part of flag emoji): not printable and above U+FFFF
+tag_ == <<917607>>
 
 PropOrder == <<"i", "oi", "s", "os", "b", "xs", "oxs", "it", "oit", "its", "e", "oe">>
 AllProps == {PropOrder[k] : k \in 1..Len(PropOrder)}
@@ -66,6 +68,8 @@ ItemLists ==
     LET r1 == ItemsSmall("its0")
         r2 == ItemsSmall("its1")
     IN  <<ListV(<<>>)>> \o [k \in 1..3 |-> ListV(<<r1[k]>>)] \o [n \in 1..9 |-> ListV(<<r1[((n - 1) \div 3) + 1], r2[((n - 1) % 3) + 1]>>)]
+        \* one list of three items: indices that differ by 2 reach different items
+        \o <<ListV(<<r1[1], r2[2], ItemsSmall("its2")[3]>>)>>
 ItemListsSmall == <<ListV(<<>>), ListV(<<ItemsSmall("its0")[1]>>), ListV(<<ItemsSmall("its0")[2], ItemsSmall("its1")[3]>>),
                     ListV(<<ItemsSmall("its0")[3], ItemsSmall("its1")[1]>>)>>
 
@@ -175,7 +179,9 @@ A_in == {In(t, Names) : t \in T1} \cup {In(t, Reds) : t \in T1}
 A_call == {Call("is_abc", <<t>>) : t \in T1} \cup {Call("gt_zero", <<t>>) : t \in T1}
           \cup {Call("in_range", <<P("i"), IntC(0)>>), Call("in_range", <<P("s"), IntC(0)>>), Call("in_range", <<P("oi"), P("i")>>),
                 Call("in_range", <<P("i"), P("oi")>>), Call("is_abc", <<FStr(<<StrC(a_), P("s")>>)>>), Call("gt_zero", <<LenOf(P("s"))>>),
-                Call("is_abc", <<StrC(ab_)>>), Call("gt_zero", <<Mem(P("it"), "ov")>>)}
+                Call("is_abc", <<StrC(ab_)>>), Call("gt_zero", <<Mem(P("it"), "ov")>>),
+                \* wrong number of arguments (rejected by the front end: TypeError otherwise)
+                Call("gt_zero", <<P("i"), IntC(1)>>), Call("is_abc", <<P("s"), P("s")>>), Call("in_range", <<P("i")>>)}
 A_bare == Terms
 
 CondX == {Cmp(">", X, IntC(0)), Cmp(">", Mem(X, "v"), IntC(0)), Cmp(">", Mem(X, "ov"), IntC(0)), Cmp("==", X, StrC(a_)),
@@ -241,6 +247,21 @@ C_deep ==
      Imp(IsNotNone(P("oe")), In(P("oe"), Reds)),
      And(<<Cmp(">", P("i"), IntC(0)), Cmp("<", P("i"), IntC(2)), Cmp("!=", P("s"), StrC(a_))>>),
      Or(<<Cmp("<", P("i"), IntC(0)), Cmp(">", P("i"), IntC(1)), P("b")>>),
+     \* a None-guard and a dereference through index expressions: same grouping (fine), and grouping that differs
+     \* only in the brackets of the arithmetic (a - (b - c) versus (a - b) - c: different items)
+     Imp(IsNotNone(Mem(Idx(P("its"), Sub(P("i"), Sub(IntC(1), IntC(1)))), "ov")), Cmp(">", Mem(Idx(P("its"), Sub(P("i"), Sub(IntC(1), IntC(1)))), "ov"), IntC(0))),
+     Imp(IsNotNone(Mem(Idx(P("its"), Sub(P("i"), Sub(IntC(1), IntC(1)))), "ov")), Cmp(">", Mem(Idx(P("its"), Sub(Sub(P("i"), IntC(1)), IntC(1))), "ov"), IntC(0))),
+     And(<<IsNotNone(Mem(Idx(P("its"), Sub(Sub(P("i"), IntC(1)), IntC(1))), "ov")), Cmp(">", Mem(Idx(P("its"), Sub(P("i"), Sub(IntC(1), IntC(1)))), "ov"), IntC(0))>>),
+     Or(<<IsNone(Mem(Idx(P("its"), Add(P("i"), Sub(IntC(1), IntC(1)))), "ov")), Cmp(">", Mem(Idx(P("its"), Sub(Add(P("i"), IntC(1)), IntC(1))), "ov"), IntC(0))>>),
+     \* comparisons of comparison results ("both or none", exclusive or): Python must not chain them
+     Cmp("==", Cmp(">", LenOf(P("xs")), IntC(0)), Cmp(">", LenOf(P("its")), IntC(0))),
+     Cmp("!=", IsNone(P("oi")), IsNone(P("os"))),
+     Cmp("==", In(P("s"), Names), P("b")),
+     Cmp("==", P("b"), Cmp("<", P("i"), IntC(1))),
+     Cmp("!=", Cmp("==", P("i"), IntC(0)), Cmp("==", P("s"), StrC(a_))),
+     Cmp("==", Cmp("<", P("i"), IntC(1)), Cmp("<", IntC(0), LenOf(P("s")))),
+     \* a string constant with a non-printable character above U+FFFF
+     Cmp("==", LenOf(StrC(tag_)), IntC(1)), Cmp("!=", P("s"), StrC(tag_)), Cmp("==", FStr(<<StrC(a_), P("s")>>), StrC(<<97>> \o tag_)),
      \* harmless mirrored implications (nothing is dereferenced before the guard)
      Or(<<P("b"), Not(IsNotNone(P("oi")))>>), Or(<<Cmp(">", P("i"), IntC(0)), Not(P("b"))>>),
      Or(<<Or(<<IsNone(P("oi")), OiPos>>), Not(P("b"))>>)}
